@@ -20,6 +20,8 @@ func init() {
 			"(R14.3) every insert into Session.torrents happens inside an mTorrents.Lock region that has tested the same key absent. " +
 			"(R14.4) the five resume codec tables (Write, Read, MarshalJSON/UnmarshalJSON, Spec literals of the adders and CompactDatabase, out-of-band Put/Get/Delete sites) agree on keys, fields and encoder/decoder inverse pairs, and every torrent field CompactDatabase copies from is maintained by every adder that records the corresponding Spec field. " +
 			"(R14.5) session-level (off-loop) code dereferences a nil-able torrent field only under a dominating != nil test. " +
+			"(R14.6) a torrent's resume bucket is created only as part of Resumer.Write and the single-field writers run their callback only on a looked-up bucket under b != nil, so a write that arrives after RemoveTorrent deleted the record cannot resurrect it. " +
+			"(R14.7) the periodic writer Session.updateStats passes, in every iteration of a range loop over Session.torrents that runs on every path, the Put of each transfer counter key (no status filter in front of the Puts). " +
 			"NOT decided: conservation over arbitrary interleavings beyond the lock-region shape, equality of values across a real restart, bbolt behaviour, data races on the fields read (C20).",
 		RuleText:    commonRuleText,
 		Assumptions: append([]string{"bbolt Put/Get store and return the bytes given; strconv/time/json/base64 encoder-decoder pairs of the pairs table are mutually inverse"}, commonAssumptions...),
@@ -64,6 +66,7 @@ func runC14(c *kit.Ctx) {
 	e.ruleDuplicateID()
 	runC14Codec(c, e.k)
 	e.ruleNilDeref()
+	e.ruleNoResurrection()
 }
 
 // ---- shared: registration facts -----------------------------------------------
@@ -662,14 +665,10 @@ func (e *c14Env) ruleDBBeforeRegistry() {
 		n++
 		key := k.key(s.Fn, "insertTorrent")
 		tv := c14Trace(argOf(s.Instr.Common(), 1))
-		var id ssa.Value
-		if ex, ok := tv.(*ssa.Extract); ok && ex.Index == 0 {
-			if call, ok := ex.Tuple.(*ssa.Call); ok && kit.CalleeObj(&call.Call) == newTorrent {
-				id = c14Trace(call.Call.Args[1])
-			}
-		}
+		// the constructor may be called through a wrapper (newTorrentFromMetaInfo(id, ..))
+		id := c14CtorID(tv, newTorrent, 2)
 		if id == nil {
-			c.Bad("R14.2", key, posOf(s.Instr), "the registered torrent is not the result of a newTorrent call in this function: its id cannot be related to a resume record")
+			c.Bad("R14.2", key, posOf(s.Instr), "the registered torrent is not the result of a newTorrent call (direct or through a constructor wrapper) in this function: its id cannot be related to a resume record")
 			continue
 		}
 		sameID := func(v ssa.Value) bool { return v != nil && c14Trace(v) == id }
@@ -871,6 +870,18 @@ func (e *c14Env) ruleDuplicateID() {
 		call, ok := ins.(*ssa.Call) // deferred unlocks run at exit: not a region end before the store
 		return ok && kit.CallsAny(ins, fs...) && kit.Canon(argOf(&call.Call, 0)).IsField(fMu)
 	}
+	insertFn := c.Func("torrent", "(*Session).insertTorrent")
+	// "mTorrents is write-locked": keyed on the mutex field, valid in any function
+	// and across call boundaries (the store may sit in a helper called under the lock)
+	lockedSpec := &kit.Spec{P: c.Prog, Deep: kit.DefaultDeep, Instr: func(i2 ssa.Instruction, in bool) bool {
+		if onMu(i2, lock) {
+			return true
+		}
+		if onMu(i2, unlock) {
+			return false
+		}
+		return in
+	}}
 	n := 0
 	for _, fn := range c.ModuleFunctions() {
 		kit.Instrs(fn, func(ins ssa.Instruction) {
@@ -879,7 +890,13 @@ func (e *c14Env) ruleDuplicateID() {
 				return
 			}
 			n++
-			key := k.key(fn, "insert Session.torrents")
+			// keyed by the registrar when the store is (a helper of) insertTorrent, so
+			// that extracting the store into a helper keeps the construct's identity
+			keyFn := fn
+			if c.OnlyCalledFrom(fn, insertFn, 2) {
+				keyFn = insertFn
+			}
+			key := k.key(keyFn, "insert Session.torrents")
 			keyStr := kit.Canon(mu.Key).String()
 			keyVal := c14Trace(mu.Key)
 			sameKey := func(x *kit.Expr) bool {
@@ -888,15 +905,6 @@ func (e *c14Env) ruleDuplicateID() {
 			isLookup := func(x *kit.Expr) bool {
 				return x != nil && x.Kind == "lookup" && x.Args[0].IsField(fTorrents) && sameKey(x.Args[1])
 			}
-			locked := (&kit.Flow{P: c.Prog, Fn: fn, Instr: func(i2 ssa.Instruction, in bool) bool {
-				if onMu(i2, lock) {
-					return true
-				}
-				if onMu(i2, unlock) {
-					return false
-				}
-				return in
-			}}).Solve()
 			absent := (&kit.Flow{P: c.Prog, Fn: fn,
 				Edge: func(a kit.Atom) bool {
 					if a.IsFalse(func(x *kit.Expr) bool { return x.Kind == "extract" && x.Idx == 1 && isLookup(x.Args[0]) }) {
@@ -913,7 +921,7 @@ func (e *c14Env) ruleDuplicateID() {
 					}
 					return in
 				}}).Solve()
-			l, a := locked.Before(ins), absent.Before(ins)
+			l, a := lockedSpec.Holds(ins, 2), absent.Before(ins)
 			switch {
 			case l && a:
 				c.OK("R14.3", key, posOf(ins), "insert under mTorrents.Lock after the same key tested absent inside the region")
@@ -956,10 +964,31 @@ func (e *c14Env) ruleNilDeref() {
 		}
 	}
 	n := 0
-	flows := map[string]*kit.Flow{}
+	specs := map[*types.Var]*kit.Spec{}
+	// session-level code: methods of the scoped types, and plain helpers of
+	// package torrent that run only as part of such methods (compactSpec(t))
+	var inScope func(root *ssa.Function, d int) bool
+	inScope = func(root *ssa.Function, d int) bool {
+		if root.Signature.Recv() != nil {
+			return scope[derefNamed(root.Signature.Recv().Type())]
+		}
+		if d <= 0 || !inPkg(root, c, "torrent") {
+			return false
+		}
+		sites := c.StaticCallSites(root)
+		if len(sites) == 0 {
+			return false
+		}
+		for _, s := range sites {
+			if s == nil || !inScope(c14RootFn(s.Parent()), d-1) {
+				return false
+			}
+		}
+		return true
+	}
 	for _, fn := range c.ModuleFunctions() {
 		root := c14RootFn(fn)
-		if root.Signature.Recv() == nil || !scope[derefNamed(root.Signature.Recv().Type())] {
+		if !inScope(root, 2) {
 			continue
 		}
 		kit.Instrs(fn, func(ins ssa.Instruction) {
@@ -991,12 +1020,11 @@ func (e *c14Env) ruleNilDeref() {
 			}
 			f := pe.Field
 			n++
-			fk := kit.FuncName(fn) + "|" + f.Name()
-			if flows[fk] == nil {
-				flows[fk] = c.FieldNil(fn, f, false)
+			if specs[f] == nil {
+				specs[f] = c.FieldNilSpec(f, false, kit.DefaultDeep)
 			}
 			key := k.key(fn, "deref torrent."+f.Name())
-			if flows[fk].Before(ins) {
+			if specs[f].Holds(ins, 2) {
 				c.OK("R14.5", key, posOf(ins), "torrent.%s%s is evaluated only under a dominating %s != nil test", f.Name(), what, f.Name())
 			} else {
 				c.Bad("R14.5", key, posOf(ins), "session-level code evaluates torrent.%s%s without a dominating nil test; the field can be nil (%s): nil pointer dereference (panic) for such a torrent", f.Name(), what, nilable[f])
